@@ -789,19 +789,22 @@ def _hs_classify(trace, l):
     ev = trace[l - 1] if 0 < l <= len(trace) else {}
     before = trace[:l - 1]
     ends = [i for i, e in enumerate(before) if e['ev'] == 'hook' and e['to'] == 'none']
-    since = [e['ev'] for e in before[ends[-1] + 1:]] if ends else []
-    window = 'hook' not in since and 'quiet' not in since     # still inside the cycle that ended the run
+    after = [e['ev'] for e in before[ends[-1] + 1:]] if ends else []
+    seg = []                       # what happened while the run was ending (until cycle() went on)
+    for name in after:
+        if name in ('hook', 'quiet'):
+            break
+        seg.append(name)
+    request = 'no' if 'quiet' in after else 'started' if 'started' in seg else 'stopreq' if 'stopreq' in seg else 'no'
     sig = {'event': ev.get('ev')}
     if ev.get('ev') == 'raised':
         sig['exc'] = ev['exc'].split('(')[0] + (':Stop.newstate' if "'Stop' object has no attribute 'newstate'" in ev['exc'] else '')
     elif ev.get('ev') == 'update':
         sig['busy'] = ev['busy']
-        sig['request_while_run_ends'] = 'started' if window and 'started' in since else \
-            'stopreq' if window and 'stopreq' in since else 'no'
+        sig['request_while_run_ends'] = request
     elif ev.get('ev') == 'quiet':
         sig['state'] = 'active=%s pending=%s busy=%s fast=%s' % (ev['active'], ev['pending'], ev['busy'], ev['fast'])
-        sig['request_while_run_ends'] = 'started' if window and 'started' in since else \
-            'stopreq' if window and 'stopreq' in since else 'no'
+        sig['request_while_run_ends'] = request
     return sig
 
 
